@@ -131,6 +131,46 @@ func runC16(c *Ctx) {
 		}
 	}
 
+	// ---------------- (a0) the exported conversion primitives ----------------
+	for i := 0; i < c.N(4000, 200000); i++ {
+		size := r.Intn(70)
+		x := new(big.Int).SetBytes(r.Bytes(r.Intn(72)))
+		if r.Intn(10) == 0 {
+			x.Neg(x)
+		}
+		if r.Intn(10) == 0 {
+			x.SetInt64(int64(r.Intn(3)))
+		}
+		buf := r.Bytes(size) // pre-filled with garbage: the primitive must overwrite all of it
+		if buf == nil {
+			buf = []byte{}
+		}
+		in := map[string]any{"x": x.Text(16), "size": size}
+		var err error
+		if guard(rec, "I2OSP", in, func() { err = cose.I2OSP(x, buf) }) {
+			continue
+		}
+		rec.Eval(1)
+		rec.Event("I2OSP")
+		fits := x.Sign() >= 0 && x.BitLen() <= 8*size
+		rec.Class(fmt.Sprintf("I2OSP/fits=%v/lz=%d", fits, func() int {
+			if !fits {
+				return -1
+			}
+			return lzClass(x, size)
+		}()))
+		if fits {
+			if err != nil || !eqBytes(buf, x.FillBytes(make([]byte, size))) {
+				rec.Violate("I2OSP", "fits", fmt.Sprintf("I2OSP gave %x (err=%v) for a value that fits %d octets", buf, err, size), in)
+			}
+			if back := cose.OS2IP(buf); back.Cmp(x) != 0 {
+				rec.Violate("OS2IP", "round-trip", "OS2IP(I2OSP(x)) != x", in)
+			}
+		} else if err == nil {
+			rec.Violate("I2OSP", "does-not-fit", "I2OSP accepted a negative or too large integer", in)
+		}
+	}
+
 	// ---------------- (a') keys whose Curve value is a wrapper type (e.g. from an HSM library) ----------------
 	for ci, cv := range curves {
 		alg := c16algs[ci]
